@@ -2880,7 +2880,7 @@ template< size_t L>
       FixedString< L>::replace( size_t pos, size_t count, size_t count2,
          char ch) noexcept
 {
-   return replace( pos, count, std::string( count2, ch));
+   return replace( pos, count, std::string( std::min( count2, L), ch));
 } // FixedString< L>::replace
 
 
